@@ -25,6 +25,10 @@ func init() { register("C03", func() Case { return &C03Case{} }) }
 func drawC03(t *rapid.T) Case {
 	c := &C03Case{}
 	to := gen.TypeOpt{Flav: gen.FlavEncode, Fresh: rapid.IntRange(0, 3).Draw(t, "fresh") != 0, MaxDepth: 3}
+	if !thorough() && rapid.IntRange(0, 5).Draw(t, "deep") == 0 {
+		// nesting beyond the default inline depth: sub-programs are compiled and cached separately
+		to.MaxDepth = 5
+	}
 	if thorough() {
 		to.MaxDepth = rapid.IntRange(2, 5).Draw(t, "maxdepth")
 		to.MaxFields = rapid.IntRange(3, 14).Draw(t, "maxfields")
